@@ -39,6 +39,8 @@ pub enum RuntimeErrorKind {
     /// Type mismatch error that can't be caught in semantic analysis
     TypeMismatch,
     InvalidIndex,
+    /// A hoisted function ran before the `make` of a variable it captures
+    UninitializedVariable,
     ProcessUnsupported,
     ProcessDenied,
     ProcessSpawnFailed(&'static str),
@@ -57,6 +59,7 @@ impl AsStr for RuntimeErrorKind {
             RuntimeErrorKind::IndexOutOfBounds => "Index out of bounds",
             RuntimeErrorKind::TypeMismatch => "Type mismatch",
             RuntimeErrorKind::InvalidIndex => "Invalid index",
+            RuntimeErrorKind::UninitializedVariable => "Variable used before its declaration",
             RuntimeErrorKind::ProcessUnsupported => "Unsupported process execution",
             RuntimeErrorKind::ProcessDenied => "Process execution denied",
             RuntimeErrorKind::ProcessSpawnFailed(..) => "Process spawn failed",
@@ -404,6 +407,10 @@ impl<'a> Runtime<'a> {
                         span: err.span,
                         message: ArenaCow::Borrowed("Index value no be whole number"),
                     }],
+                    RuntimeErrorKind::UninitializedVariable => vec![Label {
+                        span: err.span,
+                        message: ArenaCow::Borrowed("Dis variable `make` never run yet"),
+                    }],
                     RuntimeErrorKind::ProcessUnsupported => vec![Label {
                         span: err.span,
                         message: ArenaCow::Borrowed("Dis platform no support process execution"),
@@ -463,10 +470,17 @@ impl<'a> Runtime<'a> {
             }
             Stmt::AssignExisting { var, expr, .. } => {
                 let val = self.eval_expr(expr)?;
-                if let Some(local) = self.bound_stmt_local(stmt) {
-                    self.assign_bound_local(local, val);
+                let assigned = if let Some(local) = self.bound_stmt_local(stmt) {
+                    self.assign_bound_local(local, val)
                 } else {
-                    self.assign_var(var, val);
+                    self.assign_var(var, val)
+                };
+                if !assigned {
+                    let Stmt::AssignExisting { var_span, .. } = stmt else { unreachable!() };
+                    return Err(RuntimeError::new(
+                        RuntimeErrorKind::UninitializedVariable,
+                        *var_span,
+                    ));
                 }
                 Ok(ExecFlow::Continue)
             }
@@ -641,7 +655,7 @@ impl<'a> Runtime<'a> {
             Expr::Number(n, ..) => Ok(Value::Number(
                 n.parse::<f64>().expect("Scanner should guarantee valid number format"),
             )),
-            Expr::String { parts, .. } => Ok(self.eval_string_expr(expr, parts)),
+            Expr::String { parts, .. } => self.eval_string_expr(expr, parts),
             Expr::Bool(b, ..) => Ok(Value::Bool(*b)),
             Expr::Null(..) => Ok(Value::Null),
             Expr::Var(v, ..) => {
@@ -651,7 +665,11 @@ impl<'a> Runtime<'a> {
                 } else {
                     self.lookup_var(v, frame)
                 }
-                .expect("Semantic analysis should guarantee all variables are declared");
+                // A function is visible throughout its block, so it can run before the
+                // `make` of a variable it captures has executed.
+                .ok_or_else(|| {
+                    RuntimeError::new(RuntimeErrorKind::UninitializedVariable, expr.span())
+                })?;
                 Ok(val)
             }
             Expr::Binary { op, lhs, rhs, span } => match op {
@@ -1369,7 +1387,9 @@ impl<'a> Runtime<'a> {
                 } else {
                     self.lookup_var_mut(name)
                 }
-                .expect("Semantic analysis guarantees variable exists");
+                .ok_or_else(|| {
+                    RuntimeError::new(RuntimeErrorKind::UninitializedVariable, span)
+                })?;
                 match var {
                     Value::Array(arr) => Ok(arr),
                     _ => Err(RuntimeError::new_with_extras(
@@ -1394,7 +1414,9 @@ impl<'a> Runtime<'a> {
                 } else {
                     self.lookup_var_mut(base_var)
                 }
-                .expect("Semantic analysis guarantees variable exists");
+                .ok_or_else(|| {
+                    RuntimeError::new(RuntimeErrorKind::UninitializedVariable, span)
+                })?;
 
                 for (idx, index_span) in &evaluated_indices {
                     match slot {
@@ -1444,7 +1466,9 @@ impl<'a> Runtime<'a> {
                 } else {
                     self.lookup_var_mut(name)
                 }
-                .expect("Semantic analysis guarantees variable exists");
+                .ok_or_else(|| {
+                    RuntimeError::new(RuntimeErrorKind::UninitializedVariable, span)
+                })?;
                 match var {
                     Value::Host(host) => match host.get_mut() {
                         HostValue::ProcessCommand(command) => Ok(command),
@@ -1477,7 +1501,9 @@ impl<'a> Runtime<'a> {
                 } else {
                     self.lookup_var_mut(base_var)
                 }
-                .expect("Semantic analysis guarantees variable exists");
+                .ok_or_else(|| {
+                    RuntimeError::new(RuntimeErrorKind::UninitializedVariable, span)
+                })?;
 
                 for (idx, index_span) in &evaluated_indices {
                     match slot {
@@ -1570,9 +1596,13 @@ impl<'a> Runtime<'a> {
         }
     }
 
-    fn eval_string_expr(&mut self, expr: ExprRef<'a>, parts: &StringParts<'a>) -> Value<'a> {
+    fn eval_string_expr(
+        &mut self,
+        expr: ExprRef<'a>,
+        parts: &StringParts<'a>,
+    ) -> Result<Value<'a>, RuntimeError> {
         match parts {
-            StringParts::Static(content) => Value::Str(ArenaCow::borrowed(content)),
+            StringParts::Static(content) => Ok(Value::Str(ArenaCow::borrowed(content))),
             StringParts::Interpolated(segments) => {
                 let mut result = ArenaString::with_capacity_in(segments.len(), self.frame);
                 for (segment_idx, segment) in segments.iter().enumerate() {
@@ -1588,12 +1618,17 @@ impl<'a> Runtime<'a> {
                             } else {
                                 self.lookup_var_ref(var)
                             }
-                            .expect("Semantic analysis should guarantee variable exists");
+                            .ok_or_else(|| {
+                                RuntimeError::new(
+                                    RuntimeErrorKind::UninitializedVariable,
+                                    expr.span(),
+                                )
+                            })?;
                             write!(result, "{value}").unwrap();
                         }
                     }
                 }
-                Value::Str(ArenaCow::owned(result))
+                Ok(Value::Str(ArenaCow::owned(result)))
             }
         }
     }
@@ -1681,7 +1716,8 @@ impl<'a> Runtime<'a> {
         }
     }
 
-    fn assign_bound_local(&mut self, local: LocalId, val: Value<'a>) {
+    /// Returns false when the variable's `make` has not run yet.
+    fn assign_bound_local(&mut self, local: LocalId, val: Value<'a>) -> bool {
         #[cfg(naijascript_verif)]
         self.verif_assign(local, &val);
         let has_frame = self.has_frame_arena();
@@ -1691,13 +1727,14 @@ impl<'a> Runtime<'a> {
         for scope in self.env.iter_mut().rev() {
             if let Some(slot) = scope.iter_mut().rev().find(|slot| slot.id == Some(local)) {
                 Self::overwrite_slot(&mut slot.value, val, has_frame, pool, frame);
-                return;
+                return true;
             }
         }
-        unreachable!("Semantic analysis guarantees variable exists");
+        false
     }
 
-    fn assign_var(&mut self, name: &'a str, val: Value<'a>) {
+    /// Returns false when the variable's `make` has not run yet.
+    fn assign_var(&mut self, name: &'a str, val: Value<'a>) -> bool {
         let has_frame = self.has_frame_arena();
         let pool = &self.pool;
         let frame = self.frame;
@@ -1705,10 +1742,10 @@ impl<'a> Runtime<'a> {
         for scope in self.env.iter_mut().rev() {
             if let Some(slot) = scope.iter_mut().rev().find(|slot| slot.name == name) {
                 Self::overwrite_slot(&mut slot.value, val, has_frame, pool, frame);
-                return;
+                return true;
             }
         }
-        unreachable!("Semantic analysis guarantees variable exists");
+        false
     }
 
     /// Moves a function return value across a frame reset boundary.
@@ -1792,7 +1829,7 @@ impl<'a> Runtime<'a> {
         } else {
             self.lookup_var_mut(base_var)
         }
-        .expect("Semantic analysis guarantees variable exists");
+        .ok_or_else(|| RuntimeError::new(RuntimeErrorKind::UninitializedVariable, span))?;
 
         for (i, (idx, index_span)) in evaluated_indices.iter().enumerate() {
             let is_last = i + 1 == evaluated_indices.len();
